@@ -204,19 +204,39 @@ def lines_select(n0: int, n1: int, n2: int, n3: int, lo: int, hi: int) -> bool:
 # ---- transparency / three input variants (native, shipped models) ---------------------------------
 
 KERNELS = {
+    # two accumulators of equal latency: two loop-carried cycles tie for the maximum (which one the LCD column
+    # marks must not depend on where the kernel sits in the file)
+    "x86_tie": ("zen1", [".L1:", "vmovupd (%rsi,%rax), %ymm0", "vaddpd %ymm0, %ymm3, %ymm3", "vaddpd %ymm0, %ymm4, %ymm4", "vmulpd %ymm0, %ymm5, %ymm5",
+                         "addq $32, %rax", "cmpq %rcx, %rax", "jne .L1"],
+                ["# noise", ".L99:", ".p2align 4,,10", "", "#", "# BEGIN"], "#",
+                ["movl $111, %ebx", ".byte 100,103,144"], ["movl $222, %ebx", ".byte 100,103,144"]),
     "x86": ("zen1", [".L1:", "vmovupd (%rsi,%rax), %ymm0", "vfmadd213pd (%rdx,%rax), %ymm1, %ymm0", "vmovupd %ymm0, (%rdi,%rax)",
                      "vaddpd %ymm2, %ymm3, %ymm3", "addq $32, %rax", "cmpq %rcx, %rax", "jne .L1"],
-            ["# noise", ".L99:", ".p2align 4,,10", ""], "#",
+            ["# noise", ".L99:", ".p2align 4,,10", "", "#", "# BEGIN"], "#",
             ["movl $111, %ebx", ".byte 100,103,144"], ["movl $222, %ebx", ".byte 100,103,144"]),
     "aarch64": ("tx2", [".L1:", "ldr q0, [x1, x3]", "fmla v2.2d, v0.2d, v1.2d", "str q2, [x2, x3]", "add x3, x3, 16", "fadd v4.2d, v4.2d, v0.2d",
                         "cmp x3, x4", "bne .L1"],
-                ["// noise", ".L99:", ".p2align 4,,10", ""], "//",
+                ["// noise", ".L99:", ".p2align 4,,10", "", "//", "// OSACA"], "//",
                 ["mov x1, #111", ".byte 213,3,32,31"], ["mov x1, #222", ".byte 213,3,32,31"]),
 }
 
 
+def _marks(report):
+    """(instruction text, CP cell, LCD cell) of the lines the text report marks in its CP / LCD columns"""
+    import re
+    body = report[report.index("Combined Analysis Report"):report.index("Loop-Carried Dependencies Analysis Report")]
+    out = []
+    for l in body.split("\n"):
+        if re.match(r"^\s*\d+ \|", l):
+            parts = l.split("|")
+            cp, lcd = parts[-3].strip(), parts[-2].strip()
+            if cp or lcd:
+                out.append((parts[-1][4:].strip(), cp, lcd))
+    return out
+
+
 def _key(r):
-    return (r["instr"], r["edges"], r["lcd"], r["summary"]["ports"], r["summary"]["cp"], r["summary"]["lcd"])
+    return (r["instr"], r["edges"], r["lcd"], r["summary"]["ports"], r["summary"]["cp"], r["summary"]["lcd"], _marks(r["report"]))
 
 
 _BASE = {}
@@ -232,7 +252,7 @@ def _transparency_concrete(isa, mask, noise_kind, variant, fixed):
         if mask >> i & 1:
             lines.append(noises[noise_kind])
         lines.append(l)
-    pro = ["pushq %rbp" if isa == "x86" else "mov x9, x10", cmt + " prologue"]
+    pro = ["pushq %rbp" if isa.startswith("x86") else "mov x9, x10", cmt + " prologue"]
     epi = ["ret", cmt + " epilogue"]
     if variant == 0:      # bare kernel with noise lines
         r = analyze("\n".join(lines) + "\n", arch, whole=True, fixed=fixed)
@@ -248,7 +268,7 @@ def _transparency_concrete(isa, mask, noise_kind, variant, fixed):
 
 def transparency(a64: bool, mask: int, noise_kind: int, variant: int, fixed: bool) -> bool:
     """
-    pre: 0 <= mask < 256 and 0 <= noise_kind < 4 and 0 <= variant < 4
+    pre: 0 <= mask < 256 and 0 <= noise_kind < 6 and 0 <= variant < 4
     post: _
     """
     if skip(locals()):
@@ -258,13 +278,13 @@ def transparency(a64: bool, mask: int, noise_kind: int, variant: int, fixed: boo
         return True
     if fixed and (variant != 0 or noise_kind != 0):
         return True    # --fixed: bare variant with comment noise only
-    ok, nt, sample = native(_transparency_concrete, "aarch64" if a64 else "x86", pick(mask, 256), pick(noise_kind, 4), pick(variant, 4), True if fixed else False)
+    ok, nt, sample = native(_transparency_concrete, "aarch64" if a64 else "x86", pick(mask, 256), pick(noise_kind, 6), pick(variant, 4), True if fixed else False)
     return verdict(ok, nontrivial=nt, sample=sample)
 
 
 def transparency_quick(a64: bool, mask: int, noise_kind: int, variant: int) -> bool:
     """
-    pre: 0 <= mask < 256 and 0 <= noise_kind < 4 and 0 <= variant < 4
+    pre: 0 <= mask < 256 and 0 <= noise_kind < 6 and 0 <= variant < 4
     post: _
     """
     # quick tier: noise at <= 1 position
@@ -276,7 +296,7 @@ def transparency_quick(a64: bool, mask: int, noise_kind: int, variant: int) -> b
     m = pick(mask, 256)
     if not (shard(9)[0] <= ms.index(m) < shard(9)[1]):
         return True
-    ok, nt, sample = native(_transparency_concrete, "aarch64" if a64 else "x86", m, pick(noise_kind, 4), pick(variant, 4), False)
+    ok, nt, sample = native(_transparency_concrete, "aarch64" if a64 else "x86", m, pick(noise_kind, 6), pick(variant, 4), False)
     return verdict(ok, nontrivial=nt, sample=sample)
 
 
@@ -291,7 +311,7 @@ def _long_concrete(isa, n_noise, noise_kind, pos, variant):
         if i == pos:
             lines += [noises[noise_kind] if noise_kind != 1 else ".L9%d:" % j for j in range(n_noise)]
         lines.append(l)
-    pro = ["pushq %rbp" if isa == "x86" else "mov x9, x10", cmt + " prologue"]
+    pro = ["pushq %rbp" if isa.startswith("x86") else "mov x9, x10", cmt + " prologue"]
     epi = ["ret", cmt + " epilogue"]
     if variant == 0:
         r = analyze("\n".join(lines) + "\n", arch, whole=True)
@@ -355,9 +375,9 @@ def _far_concrete(isa, start, variant, tail):
     return _key(r) == _BASE[k], first + len(body) - 1 >= 1000, {"isa": isa, "kernel_lines": [first, first + len(body) - 1], "variant": ["byte markers", "--lines", "whole file after blank lines"][variant]}
 
 
-def transparency_far(a64: bool, start: int, variant: int, tail: int) -> bool:
+def transparency_far(kern: int, start: int, variant: int, tail: int) -> bool:
     """
-    pre: 985 <= start <= 1004 and 0 <= variant < 3 and 0 <= tail <= 3
+    pre: 0 <= kern < 3 and 985 <= start <= 1004 and 0 <= variant < 3 and 0 <= tail <= 3
     post: _
     """
     if skip(locals()):
@@ -365,13 +385,13 @@ def transparency_far(a64: bool, start: int, variant: int, tail: int) -> bool:
     lo, hi = shard(20)
     if not (lo <= start - 985 < hi):
         return True
-    ok, nt, sample = native(_far_concrete, "aarch64" if a64 else "x86", pick(start - 985, 20) + 985, pick(variant, 3), pick(tail, 4))
+    ok, nt, sample = native(_far_concrete, ["x86", "aarch64", "x86_tie"][pick(kern, 3)], pick(start - 985, 20) + 985, pick(variant, 3), pick(tail, 4))
     return verdict(ok, nontrivial=nt, sample=sample)
 
 
-def transparency_far_quick(a64: bool, start: int, variant: int, tail: int) -> bool:
+def transparency_far_quick(kern: int, start: int, variant: int, tail: int) -> bool:
     """
-    pre: 993 <= start <= 1000 and 0 <= variant < 3 and 0 <= tail <= 3
+    pre: 0 <= kern < 3 and 993 <= start <= 1000 and 0 <= variant < 3 and 0 <= tail <= 3
     post: _
     """
     if skip(locals()):
@@ -381,7 +401,7 @@ def transparency_far_quick(a64: bool, start: int, variant: int, tail: int) -> bo
     lo, hi = shard(8)
     if not (lo <= start - 993 < hi):
         return True
-    ok, nt, sample = native(_far_concrete, "aarch64" if a64 else "x86", pick(start - 993, 8) + 993, pick(variant, 3), pick(tail, 4))
+    ok, nt, sample = native(_far_concrete, ["x86", "aarch64", "x86_tie"][pick(kern, 3)], pick(start - 993, 8) + 993, pick(variant, 3), pick(tail, 4))
     return verdict(ok, nontrivial=nt, sample=sample)
 
 
@@ -435,7 +455,7 @@ def _cli_lines_concrete(isa, spelling, noise_mask):
         if noise_mask >> i & 1:
             lines.append(noises[i % len(noises)])
         lines.append(l)
-    pro = ["pushq %rbp" if isa == "x86" else "mov x9, x10", cmt + " prologue"]
+    pro = ["pushq %rbp" if isa.startswith("x86") else "mov x9, x10", cmt + " prologue"]
     epi = ["ret", cmt + " epilogue"]
     text = "\n".join(pro + [cmt + " OSACA-BEGIN"] + lines + [cmt + " OSACA-END"] + epi) + "\n"
     first = len(pro) + 2
@@ -481,7 +501,7 @@ def _cli_lines_over_markers_concrete(isa, extra_before, extra_after, noise_mask)
         if noise_mask >> i & 1:
             lines.append(noises[i % len(noises)])
         lines.append(l)
-    pro = ["pushq %rbp" if isa == "x86" else "mov x9, x10", cmt + " prologue"]
+    pro = ["pushq %rbp" if isa.startswith("x86") else "mov x9, x10", cmt + " prologue"]
     epi = ["ret", cmt + " epilogue"]
     inner = lines[2:-2]          # an inner region is marked, the user selects a larger one
     marked = pro + lines[:2] + [cmt + " OSACA-BEGIN"] + inner + [cmt + " OSACA-END"] + lines[-2:] + epi
@@ -534,8 +554,8 @@ CELLS = {
     "transparency_far2": {"fn": transparency_far2, "tiers": ("thorough",), "bound": "same at start lines 1500, 1999, 2000, 2001, 3007, 12000", "budget": {"thorough": 900}, "shards": 1},
     "cli_lines_over_markers": {"fn": cli_lines_over_markers, "bound": "the real CLI with --lines naming a region that contains a complete pair of comment markers around an inner part (0-2 extra lines on either side, 3 noise layouts, both ISAs): the report equals the one for a twin file whose marker comments are defused - with --lines the markers play no role",
                                "budget": {"quick": 170, "thorough": 600}, "shards": 9},
-    "transparency_quick": {"fn": transparency_quick, "tiers": ("quick",), "bound": "8-line kernel on zen1 / tx2; noise line (comment, label, directive, blank) inserted at <= 1 symbolic position x 4 input variants (bare, byte markers, comment markers, --lines)", "budget": {"quick": 170}, "shards": 9},
-    "transparency": {"fn": transparency, "tiers": ("thorough",), "bound": "noise at every subset of the 8 positions x 4 noise kinds x 4 variants, plus --fixed", "budget": {"thorough": 2400}, "shards": 64},
+    "transparency_quick": {"fn": transparency_quick, "tiers": ("quick",), "bound": "8-line kernel on zen1 / tx2; noise line (comment, label, directive, blank, empty comment, comment with a fragment of the marker word) inserted at <= 1 symbolic position x 4 input variants (bare, byte markers, comment markers, --lines)", "budget": {"quick": 170}, "shards": 9},
+    "transparency": {"fn": transparency, "tiers": ("thorough",), "bound": "noise at every subset of the 8 positions x 6 noise kinds x 4 variants, plus --fixed", "budget": {"thorough": 2400}, "shards": 64},
 }
 
 META = {
